@@ -236,6 +236,52 @@ class Function:
                     work.append(bb)
         return out
 
+    def control_conditions_pruned(self, block_id, prune):
+        """like control_conditions, but a condition for which prune(branch inst) holds is neither reported nor
+        followed transitively (used to ignore early-exit tests on the result of a previous call)"""
+        cd = self.control_deps(); out = set(); seen = set(); work = [block_id]
+        while work:
+            b = work.pop()
+            if b in seen:
+                continue
+            seen.add(b)
+            for (bb, s) in cd.get(b, ()):
+                t = self.blocks[bb].term
+                if prune(t):
+                    continue
+                out.add((t, s)); work.append(bb)
+        return out
+
+    def guard_edges(self, block_id):
+        """branch edges every path from entry to block_id must take: set of (branch Inst, successor id).
+        (edge dominance; unlike control dependence it is not polluted by early exits before the block)"""
+        key = ('ge', block_id)
+        if not hasattr(self, '_ge'):
+            self._ge = {}
+        if block_id in self._ge:
+            return self._ge[block_id]
+        out = set()
+        for b in self.blocks:
+            if len(set(b.succ)) < 2:
+                continue
+            for s in set(b.succ):
+                seen = set(); work = [0]; reached = False
+                while work:
+                    n = work.pop()
+                    if n in seen:
+                        continue
+                    seen.add(n)
+                    if n == block_id:
+                        reached = True; break
+                    for t in self.blocks[n].succ:
+                        if n == b.id and t == s:
+                            continue
+                        work.append(t)
+                if not reached and block_id != 0:
+                    out.add((b.term, s))
+        self._ge[block_id] = out
+        return out
+
     def reach_avoiding(self, start_inst, is_barrier, target_pred):
         """Is there a path from just after start_inst to an instruction satisfying target_pred that
         passes no instruction satisfying is_barrier?  Returns the offending target inst or None."""
